@@ -2,4 +2,8 @@
 # Re-record which obligations discharge on the unchanged tree (run by hand after contract / pack changes,
 # never by a registered check).
 cd "$(dirname "$0")"
-for id in "$@"; do GSV_WRITE_BASELINE=1 bin/gsv check $id | tail -1; done
+for id in "$@"; do
+  line=$(GSV_WRITE_BASELINE=1 bin/gsv check $id | tail -1)
+  echo "$line"
+  case "$line" in *"violations=0 "*"tool_errors=0 "*) ;; *) echo "  !! $id: NOT CLEAN on this tree - fix before committing this baseline" ;; esac
+done
